@@ -138,6 +138,7 @@ type DPResult struct {
 	Msg    string   `json:"msg,omitempty"`
 	Types  []string `json:"types,omitempty"`
 	Text   string   `json:"text,omitempty"`
+	LitSum string   `json:"lit_sum,omitempty"`
 }
 
 type DCase struct {
